@@ -136,14 +136,21 @@ CHECKS = {
         ref="6/C12"),
     "C14": dict(
         technique="TLA+ decision tables and state machines Auth (simple-auth admission table, RTSP Basic/Digest challenge "
-                  "machine, kick, black-list expiry, lexical path normalisation; TLC exhaustive) + every case executed "
-                  "against a real logic.ServerManager + TLC trace validation",
-        text="TLC enumerates flag sets x protocol-directions x secret forms, RTSP credential sequences, request paths and "
-             "stream names as token sequences, with eight design invariants; every case is executed against a real "
-             "ServerManager (RTMP, HTTP-FLV/TS, RTSP and HLS entry objects on in-memory connections, temp-dir roots) and "
-             "the observations (media/SDP/playlist returned, stat listing, files served/created) are decided by TLC.",
-        note="Secrets, stream names and path tokens are finite representatives; sessions enter at the objects the "
-             "listeners hand connections to (no TCP/TLS listener); black-list timing uses the real clock.",
+                  "machine over several connections, kick, black-list expiry, request-path spelling and lexical path "
+                  "normalisation; TLC exhaustive) + every case executed against a real logic.ServerManager + TLC trace validation",
+        text="TLC enumerates flag sets x protocol-directions x secret forms; RTSP challenge / credential sequences over two "
+             "connections with six nonce classes; HLS and HTTP-FLV/TS request-path spellings x flag configuration x secret "
+             "x black-listed address; kick per session kind including HLS sessions, with a peer; black-list timelines "
+             "(IPv4 / IPv6, two entries, five URL forms); request paths and stream names as token sequences. Eleven design "
+             "invariants are checked. Every case runs against a real ServerManager, and the projected observations "
+             "(media / SDP / playlist returned, stat listing, files served / created) are decided by TLC.",
+        note="Secrets, stream names, nonce classes and path spellings are finite representatives. RTSP connections: two live "
+             "plus one closed. HLS spellings are crossed component-wise; quick covers at most two deviating components, "
+             "thorough covers all. Sessions enter at the objects the listeners hand connections to (no TCP/TLS listener; "
+             "the HLS mux is a real http.ServeMux). Black-list and HLS-session kick use the real clock. A Digest response "
+             "to this connection's superseded own challenge, the instant k = duration of the black-list, and URL forms the "
+             "property does not fix (duplicate parameters, escaped or re-cased paths when admitted) are left open. HLS "
+             "sub-session mode is exercised only by kick.",
         ref="6/C14"),
     "C03": dict(
         technique="TLA+ spec Lifecycle (ServerManager / Group session bookkeeping, one action per critical section; TLC "
